@@ -6,33 +6,37 @@ CLAIM = ('Proved in Coq for the model, configurations without rotation, any buff
          'was logged before - including what was still buffered -, the file at the original path exactly what was logged '
          'afterwards, nothing else exists (C18_reopen_switches); after a reset to another log file the old file holds the '
          'records before, the new one those after (C18_reset_switches); for any alternation of such switches to fresh names the '
-         'files tile the logged stream in switch order (C18_switches_tile). For Timestamps naming and custom formats with '
-         'rotation, resets between rotation settings and returns to an earlier file the property is decided per explored history '
-         "by executable oracles defined in Coq applied to the implementation's directory after shutdown (the plain files tile "
-         'the logged bytes - C18_tiles_sound -, or merge to them in order when a file was revisited; what was logged since the '
-         'last switch is at the end of the newly specified file or family) together with the correspondence check (model = '
-         'implementation after every step): partial. WITH ROTATION (proved, Numbers naming, any criterion and buffer capacity, '
-         'every history before and after the switch): after an external rename of rCURRENT to a name outside the family and '
-         'reopen_output the call succeeds, the renamed file holds exactly what was written since the last rotation incl. the '
-         'buffered tail - on disk as soon as reopen returns -, the closed files are untouched, the later files continue the '
-         'numbering, and all files together are exactly the written stream (C18_reopen_numbers, C18_reopen_numbers_at_once); '
-         'with the file still in place it is continued, not truncated, and with a size criterion the files are those of the '
-         'history without the reopen (C18_reopen_numbers_in_place); reset_flw to another Numbers family in the same write mode '
-         'leaves everything logged before in the old family (buffered tail flushed) and everything after in the new one, which '
-         'starts as from a fresh directory (C18_reset_numbers, C18_foreign_family_prefix: basenames that are no prefixes of each '
-         'other suffice). Observations from these proofs, outside the property: the size count survives a reopen, so after a '
-         'logrotate-style rename the new, empty rCURRENT may be rotated early (C18_reopen_numbers_partition states the exact '
-         'partition); a rename of rCURRENT BY HAND onto the next numbered name of the family followed by reopen lets the next '
-         'rotation overwrite that file (fresh_name is a necessary hypothesis - ReopenRot.ex_reopen_family_name_loses_records). '
-         'The same theorems are proved for the DIRECT namings: NumbersDirect (C18_reopen_numbersdirect, _partition, _at_once, '
-         '_in_place, C18_reset_numbersdirect: the new file sits at the original path - the same number -, the next rotation '
-         'opens the next number, nothing is skipped or overwritten) and TimestampsDirect (C18_reopen_timestampsdirect, '
-         '_in_place, C18_reset_timestampsdirect: same time stamp and restart counter at the original path, a later rotation in '
-         'that second takes the next restart counter; any use_utc combination). The rename target must lie outside the family '
-         '(shown necessary: a rename by hand onto the next number is truncated by the next rotation under NumbersDirect without '
-         'append - ReopenRotD.exd_reopen_family_name_loses_records; under TimestampsDirect a family name is never overwritten, '
-         'the records are only misplaced). ')
-THEOREMS = ["C18_reopen_switches", "C18_reset_switches", "C18_switches_tile", "C18_reset_other_write_mode_rejected", "C18_reset_rejected_keeps_file", "C18_tiles_sound", "C18_reopen_numbers", "C18_reopen_numbers_partition", "C18_reopen_numbers_at_once", "C18_reopen_numbers_in_place", "C18_reset_numbers", "C18_foreign_family_prefix", "C18_reopen_numbersdirect", "C18_reopen_numbersdirect_partition", "C18_reopen_numbersdirect_at_once", "C18_reopen_numbersdirect_in_place", "C18_reset_numbersdirect", "C18_reopen_timestampsdirect", "C18_reopen_timestampsdirect_in_place", "C18_reset_timestampsdirect"]
+         'files tile the logged stream in switch order (C18_switches_tile). For custom formats with rotation, resets under '
+         'Timestamps naming, resets between rotation settings and returns to an earlier file the property is decided per '
+         "explored history by executable oracles defined in Coq applied to the implementation's directory after shutdown (the "
+         'plain files tile the logged bytes - C18_tiles_sound -, or merge to them in order when a file was revisited; what was '
+         'logged since the last switch is at the end of the newly specified file or family) together with the correspondence '
+         'check (model = implementation after every step): partial. WITH ROTATION (proved, Numbers naming, any criterion and '
+         'buffer capacity, every history before and after the switch): after an external rename of rCURRENT to a name outside '
+         'the family and reopen_output the call succeeds, the renamed file holds exactly what was written since the last '
+         'rotation incl. the buffered tail - on disk as soon as reopen returns -, the closed files are untouched, the later '
+         'files continue the numbering, and all files together are exactly the written stream (C18_reopen_numbers, '
+         'C18_reopen_numbers_at_once); with the file still in place it is continued, not truncated, and with a size criterion '
+         'the files are those of the history without the reopen (C18_reopen_numbers_in_place); reset_flw to another Numbers '
+         'family in the same write mode leaves everything logged before in the old family (buffered tail flushed) and everything '
+         'after in the new one, which starts as from a fresh directory (C18_reset_numbers, C18_foreign_family_prefix: basenames '
+         'that are no prefixes of each other suffice). Observations from these proofs, outside the property: the size count '
+         'survives a reopen, so after a logrotate-style rename the new, empty rCURRENT may be rotated early '
+         '(C18_reopen_numbers_partition states the exact partition); a rename of rCURRENT BY HAND onto the next numbered name of '
+         'the family followed by reopen lets the next rotation overwrite that file (fresh_name is a necessary hypothesis - '
+         'ReopenRot.ex_reopen_family_name_loses_records). The same theorems are proved for the DIRECT namings: NumbersDirect '
+         '(C18_reopen_numbersdirect, _partition, _at_once, _in_place, C18_reset_numbersdirect: the new file sits at the original '
+         'path - the same number -, the next rotation opens the next number, nothing is skipped or overwritten) and '
+         'TimestampsDirect (C18_reopen_timestampsdirect, _in_place, C18_reset_timestampsdirect: same time stamp and restart '
+         'counter at the original path, a later rotation in that second takes the next restart counter; any use_utc '
+         'combination). The rename target must lie outside the family (shown necessary: a rename by hand onto the next number is '
+         'truncated by the next rotation under NumbersDirect without append - ReopenRotD.exd_reopen_family_name_loses_records; '
+         'under TimestampsDirect a family name is never overwritten, the records are only misplaced). Timestamps naming with '
+         'rCURRENT: C18_reopen_timestamps, C18_reopen_timestamps_in_place (the renamed file holds the current part incl. the '
+         'buffered tail, closed files untouched, no name used twice, reader order = writing order; observed: the naming state '
+         "survives the reopen, so the rCURRENT created by the reopen is later closed under the time stamp of the MOVED file's "
+         'start - a name that claims a start before the file existed). ')
+THEOREMS = ["C18_reopen_switches", "C18_reset_switches", "C18_switches_tile", "C18_reset_other_write_mode_rejected", "C18_reset_rejected_keeps_file", "C18_tiles_sound", "C18_reopen_numbers", "C18_reopen_numbers_partition", "C18_reopen_numbers_at_once", "C18_reopen_numbers_in_place", "C18_reset_numbers", "C18_foreign_family_prefix", "C18_reopen_numbersdirect", "C18_reopen_numbersdirect_partition", "C18_reopen_numbersdirect_at_once", "C18_reopen_numbersdirect_in_place", "C18_reset_numbersdirect", "C18_reopen_timestampsdirect", "C18_reopen_timestampsdirect_in_place", "C18_reset_timestampsdirect", "C18_reopen_timestamps", "C18_reopen_timestamps_in_place"]
 TRUSTED = ["modelled, not verified: Unix semantics of rename/unlink with an open file (inode model), BufWriter flush-on-drop"]
 ASSUMPTIONS = ["synchronous write modes; a reset onto the same path without append truncates (documented) and is not generated - with append it is",
                "records carry distinct payloads, so a tiling is unambiguous"]
